@@ -2,6 +2,7 @@
    Generic in the network, optimizer and objective: [grad], [lossf], [gsum], [opt] are arbitrary. *)
 From NV Require Import Prelude Num NumF32 Random Tensor Activation Objective Optimizer Layers Network Learn.
 From NV.Theory Require Import Monad Chunks Par Training.
+From NV.Theory Require C10.
 
 (* Consecutive groups of B partition the samples in order; none is empty, none exceeds B, all but
    the last are full, and there are ceil(N/B) of them: every sample contributes exactly once per
@@ -89,3 +90,14 @@ Theorem C04_learn_batch_beyond_data :
     learn pm n inputs targets validation b1 epochs = learn pm n inputs targets validation b2 epochs.
 Proof. exact learn_batch_beyond. Qed.
 Print Assumptions C04_learn_batch_beyond_data.
+
+(* Nothing but steps: learn changes layers (parameters, flags) and optimizer state only - the
+   connection maps, accumulations, input shape and objective of the returned network are those of
+   the network it was called on, for every data set, batch size, epoch budget and stopping point. *)
+Theorem C04_learn_leaves_the_architecture_unchanged :
+  forall (N : Num) p (n n' : network N) xs ts val batch epochs h,
+    learn p n xs ts val batch epochs = Ok (n', h) ->
+    n_input n' = n_input n /\ n_loopbacks n' = n_loopbacks n /\ n_loopacc n' = n_loopacc n /\
+    n_connect n' = n_connect n /\ n_skipacc n' = n_skipacc n /\ n_objective n' = n_objective n.
+Proof. exact NV.Theory.C10.learn_same_arch. Qed.
+Print Assumptions C04_learn_leaves_the_architecture_unchanged.
